@@ -291,9 +291,9 @@ def _key_chain(P, f, op, depth=8, seen=None):
     return out
 
 
-def run_keys(R):
+def run_keys(R, rid="C16.key", owner_prefix=None, floor=4):
     P = R.prog
-    R.rule("C16.key", "the key passed to a hashed/ordered container of values (join table, groups, DISTINCT sets) is the evaluated value "
+    R.rule(rid, "the key passed to a hashed/ordered container of values (join table, groups, DISTINCT sets) is the evaluated value "
                       "itself: no function or cast on its provenance converts between INT and REAL (a lossy image makes unequal values one key)")
     reach = P.reachable(rules_sites.roots(R, "EXEC"))
     n = 0
@@ -312,6 +312,8 @@ def run_keys(R):
             owner = f
             while owner.kind == "Closure" and owner.parent_key in P.fns:
                 owner = P.fns[owner.parent_key]
+            if owner_prefix and not owner.spath.startswith(owner_prefix):
+                continue
             key = "%s|%s" % (owner.spath.split("sqlgrep::")[-1], sn.split("::")[-1])
             bad = []
             for kind, what, where in _key_chain(P, f, c.args[1]):
@@ -322,9 +324,9 @@ def run_keys(R):
                     if lc:
                         bad.append("%s (contains %s)" % (P.fns[what].path, lc[0]))
             if bad:
-                R.violation("C16.key", key, "the key of %s on %s is computed through %s: distinct values can collapse to one key, so "
+                R.violation(rid, key, "the key of %s on %s is computed through %s: distinct values can collapse to one key, so "
                                             "unequal values are joined/grouped/deduplicated together" % (sn.split("::")[-1], ts[0], bad[0]),
                             [c.loc()])
             else:
-                R.ok("C16.key", key, "key provenance holds no INT<->REAL conversion", c.loc())
-    R.floor("C16.key", 4)
+                R.ok(rid, key, "key provenance holds no INT<->REAL conversion", c.loc())
+    R.floor(rid, floor)
